@@ -172,8 +172,27 @@ def run(case, ctx):
     length = case["length"]
     rng = random.Random(case["seed"])
     if case["base"] is None:
-        root_obj = mc.sdram_alloc_as_filelike(max(length, 0) or 0, x=0, y=0,
-                                              app_id=30) if length else None
+        cleared = length and case["seed"] % 3 == 0
+        if cleared:
+            # the heap holds leftovers; the caller asks for a zeroed block
+            junk = bytes(1 + rng.getrandbits(8) % 255
+                         for _ in range(length + 256))
+            chip.wr(chip.heap - 64, junk, log=False)
+            h0 = chip.heap
+        root_obj = mc.sdram_alloc_as_filelike(
+            max(length, 0) or 0, x=0, y=0, app_id=30,
+            **(dict(clear=True) if cleared else {})) if length else None
+        if cleared:
+            ctx.hit("cleared_allocation")
+            a = root_obj.address
+            check(chip.rd(a, length) == bytes(length), "allocation-not-cleared",
+                  "a block of %d bytes allocated with clear=True holds "
+                  "non-zero bytes" % length)
+            check(a == h0 and chip.rd(a - 64, 64) == junk[:64] and
+                  chip.rd(a + ((length + 3) & ~3), 64) ==
+                  junk[64 + ((length + 3) & ~3):][:64],
+                  "clearing-touched-neighbours",
+                  "bytes around the cleared block changed")
         if root_obj is None:        # zero-size allocations are refused
             base = 0x60200000
             chip.allocs[base] = (0, 0, 30)
